@@ -43,6 +43,29 @@ def build_kind(v, rho, kw):
     if v.kind == 'substance': return Substance(v.spec, natural=True, mass_density=rho, **kw)
     return Material(v.spec, natural=True, mass_density=rho, **kw)
 '''
+ZERO_SRC = '''
+def run(v, O):
+    # a component whose amount is zero contributes nothing: its rows are zero and every other number equals that of the composite built without it
+    kw = {('mass_density' if v.mode == 'mass' else 'number_density'): Quantity(v.d, v.u1), 'volume': Quantity(v.V, 'l')}
+    def mk(amounts):
+        if v.kind == 'subdict': return Substance(amounts, natural=True, **kw)
+        if v.kind == 'material-text': return Material(' '.join(f'{O.lit(n) if not isinstance(n, (int, float)) else n} <{s}>' for s, n in amounts.items()), natural=True, norm_type=NORMS[v.norm], **kw)
+        return Material(amounts, natural=True, norm_type=NORMS[v.norm], **kw)
+    full = mk({v.spec[0]: v.n1, v.spec[1]: v.n2, v.spec[2]: v.zero})
+    part = mk({v.spec[0]: v.n1, v.spec[1]: v.n2})
+    df, dp = full.data_matter(quantity=False), part.data_matter(quantity=False)
+    z = v.spec[2]
+    out = [(f'{z} with amount zero: n, rho, N, M rows are zero', O.eq(df[z].n, 0) and O.eq(df[z].rho, 0) and O.eq(df[z].N, 0) and O.eq(df[z].M, 0))]
+    out.append(('mass density as without the component', O.close(full.mass_density.value('g/cm3'), part.mass_density.value('g/cm3'))))
+    out.append(('number density as without the component', O.close(full.number_density.value('cm-3'), part.number_density.value('cm-3'))))
+    out.append(('total mass as without the component', O.close(full.mass.value('g'), part.mass.value('g'))))
+    for k in v.spec[:2]:
+        out.append((f'row {k}: n as without the component', O.close(df[k].n, dp[k].n)))
+        out.append((f'row {k}: rho as without the component', O.close(df[k].rho, dp[k].rho)))
+        out.append((f'row {k}: M as without the component', O.close(df[k].M, dp[k].M)))
+    out.append(('rows rho add up to rho', O.close(sum(df[k].rho for k in v.spec), full.mass_density.value('g/cm3'))))
+    return out
+'''
 ADD_SRC = '''
 def run(v, O):
     out = []
@@ -120,7 +143,7 @@ VOL_UNITS = [('l', 'cm3'), ('cm3', 'm3'), ('m3', 'l'), ('ml', 'gal')]
 def scenarios(tier, seed):
     rnd = random.Random(seed)
     S = []
-    objs = [('element', 'B', None), ('element', 'O{17-2}', None), ('element', 'O*2', None), ('element', 'Fe{56}*3', None), ('element', 'O*0.5', None), ('element', 'C*0.25', None), ('substance', 'H2O', None), ('substance', 'Ca(OH)2', None),
+    objs = [('element', 'B', None), ('element', 'O{17-2}', None), ('element', 'O*2', None), ('element', 'Fe{56}*3', None), ('element', 'O*0.5', None), ('element', 'C*0.25', None), ('element', '[n]*2', None), ('element', '[p]*3', None), ('element', '[e]*0.5', None), ('element', '[n]', None), ('substance', 'H2O', None), ('substance', 'Ca(OH)2', None),
             ('subdict', ['H', 'O'], None), ('material', ['H2O', 'CO2'], 'NUMBER_FRACTION'), ('material', ['N2', 'O2', 'Ar'], 'NUMBER'),
             ('material', ['H2O', 'NaCl'], 'MASS_FRACTION'), ('material', ['Fe2O3'], 'NUMBER_FRACTION')]
     if tier != 'quick':
@@ -151,6 +174,13 @@ def scenarios(tier, seed):
             S.append(Scenario(f'add/{kind}/{j}/{mode}', ADD_SRC, inp, ['v.d > 0', 'v.V > 0', 'v.n1 > 0', 'v.n2 > 0', 'v.n3 > 0'],
                               consts={'kind': kind, 'spec': spec, 'norm': norm, 'mode': mode, 'natural': j % 2 == 0, 'u1': u1, 'w1': 'l', 'existing': existing, 'new': new},
                               preamble=PRE, what=f'{kind} {spec} with {mode} density, then add({existing}) and add({new})', samples=1))
+    for kind, spec, norm in (('subdict', ['H', 'O', 'N'], None), ('material', ['H2O', 'NaCl', 'KCl'], 'NUMBER_FRACTION'), ('material', ['N2', 'O2', 'Ar'], 'NUMBER'), ('material-text', ['H2O', 'NaCl', 'KCl'], 'NUMBER_FRACTION')):
+        for mode in ('mass', 'number'):
+            for zero in (0, 0.0):
+                # concrete amounts: the library's avg row divides by the amounts with NumPy (0/0 = nan there, an exception on proxies)
+                S.append(Scenario(f'zero-amount/{kind}/{norm}/{mode}/{zero!r}', ZERO_SRC, {}, [],
+                                  consts={'kind': kind, 'spec': spec, 'norm': norm, 'mode': mode, 'zero': zero, 'u1': {'mass': 'g/cm3', 'number': 'cm-3'}[mode], 'd': 0.8 if mode == 'mass' else 2.5e22, 'V': 2.0, 'n1': 0.7, 'n2': 0.3}, preamble=PRE,
+                                  what=f'{kind} {spec} whose last component has the amount {zero!r} ({mode} density given; concrete)', samples=1))
     for kind, spec in (('element', 'B'), ('substance', 'H2O'), ('material', {'H2O': 1, 'NaCl': 2})):
         for u_inv, k in (('cm3/g', 1.0), ('l/kg', 1.0), ('m3/kg', 1000.0)):
             S.append(Scenario(f'specific-volume/{kind}/{u_inv}', SPECVOL_SRC, {'d': 'real', 'V': 'real'}, ['v.d > 0', 'v.V > 0'], consts={'kind': kind, 'spec': spec, 'u_inv': u_inv, 'k': k}, preamble=PRE,
